@@ -260,8 +260,10 @@ Qed.
 Print Assumptions C10_wf_name_needed_refuted.
 
 (* content that is itself a store whose only entry runs into its GUID table:
-   reassembling the nested store asks for a negative amount of free space *)
-Theorem C10_wf_no_nested_needed_refuted : exists s, is_panic (rt 255 s) = true.
+   reassembling the nested store fails ("NVAR store too small"; before the repair
+   897782a of the Go code this was a makeslice panic), so the outer store is not
+   reassembled either *)
+Theorem C10_wf_no_nested_needed_refuted : exists s, rt 255 s = Err E_FIT.
 Proof.
   exists (mkAStore [AFull 134 16777215 (GInline g1) (NAscii [65])
                       ([78;86;65;82; 13;0; 255;255;255; 130; 0; 65;0] ++ [1;2;3;4;5;6;7])] 2 []).
@@ -323,9 +325,10 @@ Qed.
 Print Assumptions C10_ext_agreement_needed_refuted.
 
 (* compact_fits, room for the table: an index beyond the table reads as the zero
-   GUID, which compaction then adds to a table that has no room: makeslice panics *)
+   GUID, which compaction then adds to a table that has no room: nvram-compact
+   fails with "NVAR store too small" (a makeslice panic before the repair 897782a) *)
 Theorem C10_fits_needed_refuted : exists s,
-  is_panic (do st <- parse_store dec16_impl 255 (emit 255 s); compact_store enc16_impl 255 3 st) = true.
+  (do st <- parse_store dec16_impl 255 (emit 255 s); compact_store enc16_impl 255 3 st) = Err E_FIT.
 Proof.
   exists (mkAStore [ AFull 130 16777215 (GIndex 3) (NAscii [65]) [1] ] 0 []).
   vm_compute. reflexivity.
